@@ -23,17 +23,22 @@ RULE = ("outer timeline (cold or hot; completing before/after the last inner, er
 ASSUMPTIONS = ["single-threaded / virtual-time execution: one run is one list of tagged events",
                "each element of the outer sequence is a distinct inner observable, the outer sequence does not notify inside subscribe"]
 TRUSTED_EXTRA = ["the logging cold/hot/sync sources of harness/props/comb_common.py as measuring instruments"]
-LEVEL_TEXT = ("Lean theorems over the trace machine of switch_latest (latest id, has_latest, is_stopped, SerialDisposable as written), for every list of "
-              "tagged events: an inner element is forwarded iff its inner is the most recently arrived one, the previous inner is unsubscribed in the "
-              "step in which the next arrives (before the new one is subscribed), completion iff outer completed and the latest inner completed, "
-              "notifications of stale inners (errors included) are ignored. Tied to /repo by replaying recorded event lists.")
-LEVEL_NOTE = "see the final report; partial theorems are named _partial"
+LEVEL_TEXT = ("Lean theorems (arbitrary event lists, no bounds) on the trace machine of switch_latest (switch_map, switch_map_indexed, flat_map_latest = map + switch_latest): a value goes "
+"out iff it is delivered by the most recently arrived inner; the arrival step unsubscribes the previous inner and then subscribes the new one (exact effects); the output completes "
+"iff the outer completed and the latest inner (if any) completed; notifications of stale inners, errors included, have no effect. Tied to /repo by replaying recorded event lists "
+"of generated real runs with overlapping inner lifetimes, stale pushes, same-instant arrivals, and comparing outputs and effects in order, plus a property-text oracle.")
+LEVEL_NOTE = ("Model = RxModel/Comb.lean + RxModel/CombHO.lean swM (latest id as `cur`, has_latest, is_stopped, Composite(outer, Serial inner)). All four theorems full: "
+"switch_only_latest and switch_completes_iff are stated against declarative folds over the delivered notifications (swSpec / swTStep+swRule: 'latest' = the most "
+"recently arrived inner), switch_unsub_prev_at_arrival gives the exact effect list of the arrival step, switch_stale_error_ignored holds for ANY state. Note: in "
+"single-threaded execution a stale inner is already unsubscribed, so its AutoDetachObserver drops its notifications before the `latest[0] == _id` tests are reached; "
+"removing those tests is therefore not observable by any single-threaded run (equivalent mutant) - the theorem covers them in the model. Stale notifications are "
+"generated with 'rude' hot sources that keep pushing after unsubscription.")
 
 OPS = ["switch_latest", "switch_map", "switch_map_indexed", "flat_map_latest"]
 
 
 def cases(rng, tier):
-    n = fw.tier_scale(tier, 4000, 36000)
+    n = fw.tier_scale(tier, 4000, 80000)
     for i in range(n):
         yield cc.gen_ho_case(rng, OPS[i % len(OPS)], p_rude=0.5)
 
